@@ -3,7 +3,8 @@ report, per document, the digest of what it yields (pass 1), the process-global 
 whether the caller's buffer was changed, and the digest again after the whole history (pass 2).
 
 stdin: {"docs": [[name, path], ...], "order": [indices], "volatile": [cell names], "pass2": bool}
-stdout: {"pass1": {name: digest}, "pass2": {name: digest}, "changed": {name: [cells]}, "input": [names]}
+stdout: {"pass1": {name: digest}, "pass2": {name: digest}, "changed": {name: [cells]}, "input": [names],
+         "fresh": {name: digest in a forked child of the still pristine interpreter}}
 """
 import io
 import json
@@ -26,6 +27,34 @@ from c06_digest import digest_of  # noqa: E402
 from sharepoint2text.parsing import router  # noqa: E402
 
 
+def _fresh_baseline(docs):
+    """what each document yields in a process in which NOTHING was extracted before: one forked child per document,
+    forked from this interpreter while it is still pristine (modules imported, no extraction run yet)"""
+    out = {}
+    for name, p in docs:
+        r, w = os.pipe()
+        pid = os.fork()
+        if pid == 0:
+            try:
+                os.close(r)
+                with open(p, "rb") as fh:
+                    data = fh.read()
+                os.write(w, digest_of(p, data).encode())
+            finally:
+                os._exit(0)
+        os.close(w)
+        buf = b""
+        while True:
+            chunk = os.read(r, 4096)
+            if not chunk:
+                break
+            buf += chunk
+        os.close(r)
+        os.waitpid(pid, 0)
+        out[name] = buf.decode() or None
+    return out
+
+
 def main():
     job = json.load(sys.stdin)
     docs = job["docs"]
@@ -40,6 +69,8 @@ def main():
             pass
     import mimetypes
     mimetypes.init()
+    if job.get("fresh", True):
+        res["fresh"] = _fresh_baseline(docs)
     before = c06_state.cells()
     for i in job["order"]:
         name, p = docs[i]
